@@ -23,6 +23,9 @@ import (
 type FaultSpec struct {
 	Pos   uint16 `json:"pos"`   // which faultable operation (mod their number in the dry run)
 	Short uint16 `json:"short"` // 0 = fail without effect; otherwise short write of (Short mod len) bytes
+	// Sticky > 0: the next Sticky operations of the same kind fail as well (the device does not recover
+	// between two attempts) — the only way to reach code that retries a failed operation.
+	Sticky uint8 `json:"sticky,omitempty"`
 }
 
 type C25Scenario struct {
@@ -46,6 +49,9 @@ func genC25(t *rapid.T) C25Scenario {
 			f := FaultSpec{Pos: rapid.Uint16().Draw(t, "pos")}
 			if rapid.Bool().Draw(t, "short") {
 				f.Short = 1 + rapid.Uint16Max(2000).Draw(t, "shortn")
+			}
+			if rapid.IntRange(0, 2).Draw(t, "sticky") == 0 {
+				f.Sticky = uint8(rapid.IntRange(1, 3).Draw(t, "stickyn"))
 			}
 			p = append(p, f)
 		}
@@ -168,7 +174,7 @@ func runC25(s C25Scenario) pbt.Outcome {
 		pl := plan{}
 		for _, f := range p {
 			i := fidx[int(f.Pos)%len(fidx)]
-			flt := vfs.Fault{}
+			flt := vfs.Fault{Sticky: int(f.Sticky)}
 			if f.Short > 0 && d.ops[i].Kind == "write" && len(d.ops[i].Data) > 1 {
 				flt.Short = 1 + int(f.Short)%(len(d.ops[i].Data)-1)
 			}
@@ -186,6 +192,7 @@ func runC25(s C25Scenario) pbt.Outcome {
 	}
 	var out pbt.Outcome
 	fired, nontriv := 0, 0
+	renameFaulted, stickyFired := false, false
 	for pi, pl := range plans {
 		dir := fmt.Sprintf("%s/p%d", base, pi)
 		os.MkdirAll(dir, 0o755)
@@ -201,6 +208,14 @@ func runC25(s C25Scenario) pbt.Outcome {
 			continue
 		}
 		fired++
+		if len(failedOps) > len(pl) {
+			stickyFired = true
+		}
+		for _, fo := range failedOps {
+			if run.ops[fo].Kind == "rename" {
+				renameFaulted = true
+			}
+		}
 		faultBetween := func(a, b int) bool { // a failed op with index in [a, b)
 			for _, f := range failedOps {
 				if f >= a && f < b {
@@ -331,6 +346,18 @@ func runC25(s C25Scenario) pbt.Outcome {
 	}
 	if fired > 0 {
 		out.Classes = append(out.Classes, "fault-fired")
+	}
+	for _, o := range d.ops {
+		if o.Kind == "rename" {
+			out.Classes = append(out.Classes, "history-with-compaction")
+			break
+		}
+	}
+	if renameFaulted {
+		out.Classes = append(out.Classes, "fault-on-compaction-rename")
+	}
+	if stickyFired {
+		out.Classes = append(out.Classes, "persistent-fault-hit-a-second-operation")
 	}
 	return out
 }
